@@ -84,7 +84,7 @@ type WHist struct {
 
 // Request is the `wexp` line for the oracle.
 // Searchable: histories beyond this size are checked by the direct oracle only.
-func (h *WHist) Searchable() bool { return len(h.Items) > 0 && len(h.Items) <= 90 }
+func (h *WHist) Searchable() bool { return len(h.Items) > 0 && len(h.Items) <= 50 }
 
 func (h *WHist) Request() string {
 	pre := "0"
